@@ -44,6 +44,14 @@ def isar_friendly_schema(rng):
     sch.add(S.Const('XK1', a))
     sch.add(S.Const('XK2', a * b, 'XK1*%d' % b))
     sch.add(S.Const('XK3', a + a * b + 1, '(XK1+XK2)+1'))
+    # isar's operator functions, nested in themselves and in each other (the prophy text carries the plain number)
+    o1, o2 = rng.randint(0, 2), rng.randint(1, 2)
+    sch.add(S.Const('XO1', (1 << o1) | 2 | 4, isar_text='bitMaskOr(bitMaskOr(%d, 2), 4)' % (1 << o1)))
+    sch.add(S.Const('XO2', 1 << (1 << o2), isar_text='shiftLeft(1, shiftLeft(1, %d))' % o2))
+    sch.add(S.Const('XO3', (1 << o2) | 1, isar_text='bitMaskOr(shiftLeft(1, %d), 1)' % o2))
+    sch.add(S.Struct('XOS', [S.Member('a', 'u8', S.FIXED, (1 << o1) | 6, size_text='XO1'),
+                             S.Member('b', 'u16', S.FIXED, 1 << (1 << o2), size_text='XO2'),
+                             S.Member('c', 'u32', S.LIMITED, (1 << o2) | 1, size_text='XO3')]))
     sch.add(S.Struct('XD', [S.Member('p', 'u8', S.FIXED, a * b, size_text='XK2'),
                             S.Member('q', 'u16', S.LIMITED, a + a * b + 1, size_text='XK3'),
                             S.Member('r', 'u32', S.FIXED, a, size_text='XK1')]))
@@ -223,7 +231,7 @@ def finish(ctx, merged, specs):
                                   'message', 'negative-enumerator', 'patch-type', 'patch-insert', 'patch-remove',
                                   'patch-dynamic', 'patch-limited', 'patch-greedy', 'patch-static',
                                   'patch-rename-member', 'patch-rename-node', 'patch-struct',
-                                  'patch-greedy-then-remove', 'patch-remove-then-greedy', 'optional-array:ext',
+                                  'patch-greedy-then-remove', 'patch-remove-then-greedy', 'patch-static-on-counted-array', 'optional-array:ext',
                                   'optional-array:fixed', 'optional-array:dynamic', 'optional-array:limited')]
     missing = [f for f in need if f not in merged['features']]
     for k in ('encodings_compared', 'absent_message_rules_ignored', 'inapplicable_rules_rejected'):
